@@ -473,23 +473,23 @@ def dump_of(I, what):
     return I.dump()
 
 
-def run_follow(I, case):
-    rc = I.run_string(case["follow"])
+def run_follow(I, case, key="follow"):
+    rc = I.run_string(case[key])
     if rc != 0:
         return None, I.errors()
     return I.table(1), ""
 
 
-def modify_input(D1, P1):
+def modify_input(D1, P1, guess=""):
     """(placeholder definitions, restore text): solutions as placeholders + SOLUTION_MODIFY with totals, total_h, total_o, cb
-    only; all other entities as RAW"""
+    only; all other entities as RAW.  guess: extra lines of the placeholder (other starting estimates)"""
     place, mod = [], []
     for (kind, n), e in P1.items():
         if kind != "SOLUTION":
             continue
         # the placeholder has the temperature, pressure and water mass of the solution it stands for: none of them is
         # derivable from the four restored items, and mixing weights intensive properties by the stored water mass
-        place.append("SOLUTION %d\n temp %r\n pressure %r\n -water %r" % (n, float(e["temp"]), float(e["pressure"]), float(e["mass_water"])))
+        place.append("SOLUTION %d\n temp %r\n pressure %r\n -water %r%s" % (n, float(e["temp"]), float(e["pressure"]), float(e["mass_water"]), guess))
         L = ["SOLUTION_MODIFY %d" % n, " -total_h %s" % _tok(e["total_h"]), " -total_o %s" % _tok(e["total_o"]),
              " -cb %s" % _tok(e["cb"]), " -totals"]
         for name, v in R.nv(e.get("totals")).items():
@@ -533,10 +533,11 @@ def _check(case, ctx, inst):
     try:
         P1 = R.parse(D1)
     except R.RawParseError as e:
-        raise Violation("dump_format", "DUMP text is not well-formed: %s" % e)
+        # (the independent parser rejects repeated nested options such as the -Isotope entries of a solution; such a
+        # state still goes through every clause that works on the text itself)
+        P1 = {}
+        classes.append("dump_not_parsed_by_rawparse")
     kinds, sub = measure(P1)
-    if "sol_isotope_entries" in sub and not case.get("known_isotopes"):
-        ctx.event("excluded_solution_isotope_entries")
     F1 = fields(D1)
 
     # (5a) Phreeqc copy and Serializer on the original: dump_raw text before == after
@@ -552,7 +553,7 @@ def _check(case, ctx, inst):
         if Rc != R1:
             raise Violation("copy", "dump_raw of the copy-constructed engine differs from the original: %s" % first_diff(R1, Rc))
     S = inst()
-    nmax = max([n for (k, n) in P1 if k != "USE" and n is not None] + [0])
+    nmax = max([n for k, n, l in blocks(D1)[0]] + [0])
     _trace("serialize")
     Rs = A.serialize_into(S, 0, nmax)
     _trace("serialize done")
@@ -612,6 +613,10 @@ def _check(case, ctx, inst):
 
     poised = redox in ("inert", "o2")
     stats = {}
+    if TA.rows < 2:
+        # nothing reacts in this cell (a solution without reactants): the follow-up punches no row
+        classes.append("followup_without_rows")
+        poised = False
     if poised:
         # (3) follow-up on the text-restored (+ storage-bin round-tripped) state
         TB, errB = run_follow(B, case)
@@ -622,8 +627,16 @@ def _check(case, ctx, inst):
         TBp = None
         if Bp.run_string(perturb(D1)) == 0:
             TBp, _e = run_follow(Bp, case)
-        if not well_conditioned(TB, TBp, case["cols"], redox):
-            classes.append("followup_not_compared_ill_conditioned")
+        ok_b = well_conditioned(TB, TBp, case["cols"], redox)
+        # ... and on a replica of the original (same history) whose solution amounts are scaled by 1 +- 3e-13 through a MIX
+        ok_a = not case.get("follow_p")      # hand-written replays may come without the perturbed follow-up
+        if case.get("follow_p"):
+            Ap = inst()
+            if all(Ap.run_string(s) == 0 for s in case["sims"]):
+                TAp, _e = run_follow(Ap, case, "follow_p")
+                ok_a = well_conditioned(TA, TAp, case["cols"], redox)
+        if not (ok_a and ok_b):
+            classes.append("followup_not_compared_ill_conditioned" + ("" if ok_b else "_restored_side") + ("" if ok_a else "_original_side"))
             poised = False
     if poised:
         compare_tables(TA, TB, case["cols"], redox, "follow_restored", stats)
@@ -639,20 +652,31 @@ def _check(case, ctx, inst):
         # (4) SOLUTION_MODIFY with totals, total_h, total_o, cb only
         E = inst()
         place, restore = modify_input(D1, P1)
-        if E.run_string(place) != 0:
+        if not P1:
+            pass
+        elif E.run_string(place) != 0:
             ctx.event("modify_leg_placeholder_error")
         else:
             rc = E.run_string(restore)
             if rc != 0 or E.errors().strip():
                 raise Violation("read_errors", "SOLUTION_MODIFY / RAW restore gave errors: %s" % E.errors()[:600])
             TE, errE = run_follow(E, case)
+            # the same leg from a placeholder with other starting estimates (pH 5, pe 8): when the two disagree, the
+            # solver's answer depends on its starting point and the leg cannot be judged
+            E2 = inst()
+            place2, restore2 = modify_input(D1, P1, "\n pH 5\n pe 8")
+            TE2 = None
+            if E2.run_string(place2) == 0 and E2.run_string(restore2) == 0:
+                TE2, _e = run_follow(E2, case)
             if TE is None:
                 ctx.event("modify_leg_not_converged")     # starts from pure-water estimates: not a property violation
+            elif not well_conditioned(TE, TE2, case["cols"], redox):
+                classes.append("modify_leg_not_compared_depends_on_starting_estimates")
             else:
                 compare_tables(TA, TE, case["cols"], redox, "follow_solution_modify", stats)
                 classes.append("modify_leg_compared")
         classes.append("followup_compared")
-    elif redox not in ("inert", "o2"):
+    elif redox not in ("inert", "o2") and TA.rows >= 2:
         classes.append("followup_not_compared_unpoised")
     for k in [k for k in stats if k.startswith("SOFT ")]:
         classes.append(k)
